@@ -33,7 +33,7 @@ def attribute(why):
 class Knobs:
     def __init__(self, fail_rate=0, notexec_rate=0, undefined_rate=10, delays=False, max_targets=5, slow_deps=True,
                  redirect_rate=0, multi_fail=False, custom_dirs=False, checkpoint=False, chmod=False, listener=False,
-                 sabotage=False, slash=False, force_mode=None, force_fou=None, dense=False):
+                 sabotage=False, slash=False, force_mode=None, force_fou=None, dense=False, commit_range=False):
         self.fail_rate = fail_rate          # percent of tasks that exit non-zero
         self.notexec_rate = notexec_rate    # percent of command files without x bit
         self.undefined_rate = undefined_rate
@@ -51,6 +51,7 @@ class Knobs:
         self.force_mode = force_mode        # 0 changed/all targets, 1 -t, 2 -t --deps
         self.force_fou = force_fou          # --fail-on-undefined on / off
         self.dense = dense                  # at least 3 targets, every second possible `uses` edge present
+        self.commit_range = commit_range    # changes taken between two explicit commits (--begin / --end), later commits exist
 
 
 def build(seed, knobs):
@@ -106,7 +107,7 @@ def build(seed, knobs):
             ops.append([rng.pick(["modify", "untracked"]), rng.below(n), rng.pick(["before", "after"])])
         # sometimes the changes are taken between two explicit commits (--begin / --end) instead
         sc.ck_plan = {"pending": rng.chance(1, 2), "ops": ops,
-                      "range": [rng.below(n), rng.below(n)] if rng.chance(1, 3) else None}
+                      "range": [rng.below(n), rng.below(n), rng.below(n)] if (knobs.commit_range or rng.chance(1, 3)) else None}
     sc.dyn_disp = {}
     sc.chmod_plan = None
     cl = sc.command_list()
@@ -214,7 +215,8 @@ def install(sc):
                 with open(os.path.join(repo.dir, sc.targets[i]["path"], "file.txt"), "a") as f:
                     f.write("commit %d\n" % k)
                 shas.append(repo.commit_all("r%d" % k))
-            sc.range_args = ["--begin", shas[0], "--end", shas[1]]
+            # --end names an older commit than HEAD (or HEAD itself, by name)
+            sc.range_args = ["--begin", shas[0], "--end", shas[1 + (sc.ck_plan["range"][0] % 2)]]
         apply("before")
         if sc.ck_plan["pending"]:
             repo.mono("checkpoint", "update", "--pending")
@@ -282,6 +284,9 @@ def observe(sc, repo, model, timeout=120):
         return verdicts, info
     if rc == 2 or j is None:
         verdicts.append(("C06", {"kind": "run ended with a fatal error", "scenario": desc, "rc": rc, "stderr": err[-600:]}))
+        # nothing failed, yet no (or not every) defined command of a selected target was started
+        verdicts.append(("C05", {"kind": "a defined command of a selected target was not started although nothing failed before it",
+                                 "scenario": desc, "rc": rc, "stderr": err[-600:], "started": len(repo.traces())}))
         return verdicts, info
     cmds = sc.command_list()
     doc_cmds = [r["command"] for r in j["results"]]
